@@ -17,6 +17,7 @@ ARRAY     coordinate arithmetic that the code performs on index *arrays*: the ex
             arr   an index array in the stored dtype
             py    a Python int (weak scalar: stays in the array's type, OverflowError if unfit)
             np64  an element of an intp array / a NumPy int64 scalar (promotes)
+            npk   a NumPy integer scalar whose type is the extra parameter `kt` of the definition
           `X.astype(np.intp | np.int64)` inside such a tree becomes MachInt's `astype (DInt i64) X`.
 FACT      statements that must be present verbatim (a `(text, n)` pair: exactly n times); the given Coq
           text is emitted when they are.  Several entries may carry the same name: alternatives, the
@@ -128,9 +129,10 @@ ARRAY = [
          stmt="mask = x.coords[-2].astype(np.int64) + k >= x.coords[-1].astype(np.int64)", what="cmp",
          leaves={"x.coords[-2]": ("arr", "r"), "k": ("py", "k"), "x.coords[-1]": ("arr", "c")},
          params=[("r", "tarr"), ("c", "tarr"), ("k", "Z")]),
-    # roll: `sh` is an element of np.full(len(axis), shift) (int64) when a scalar shift was given ...
+    # roll: `sh` is an element of np.full(len(axis), shift) when a scalar shift was given: a NumPy scalar of
+    # type kt (int64, or uint64 for a shift in 2^63 .. 2^64-1: MachInt.np_int_type) ...
     dict(name="s_roll_add_np", file=COMMON, func="roll", stmt="coords[ax] += sh", what="aug",
-         leaves={"coords[ax]": ("arr", "c"), "sh": ("np64", "sh")}, params=[("c", "tarr"), ("sh", "Z")]),
+         leaves={"coords[ax]": ("arr", "c"), "sh": ("npk", "sh")}, params=[("c", "tarr"), ("kt", "ity"), ("sh", "Z")]),
     # ... and a Python int when a tuple of shifts as long as the tuple of axes was given
     dict(name="s_roll_add_py", file=COMMON, func="roll", stmt="coords[ax] += sh", what="aug",
          leaves={"coords[ax]": ("arr", "c"), "sh": ("py", "sh")}, params=[("c", "tarr"), ("sh", "Z")]),
